@@ -87,6 +87,7 @@ class Check(BaseCheck):
 
     def translate(self):
         extract.gen_fem()
+        extract.gen_solver_glue()
         self.sigma = float(astx.gen_eigs()[1])
 
     def problems(self, seed, n_tri, n_tet):
